@@ -151,7 +151,7 @@ func (c13) Generate(r *core.Rng, run int, tier string) *core.History {
 			// a parameter named like ANOTHER macro of the session (or like a constant): it is a new local binding of
 			// each expansion and must leave that macro alone
 			other := fmt.Sprintf("mc%d", (i+1+r.Intn(nm-1))%nm)
-			d.params[r.Intn(np)] = core.Pick(r, []string{other, other, "PA"})
+			d.params[r.Intn(np)] = core.Pick(r, []string{other, other, "PA", "min", "max", "exp", "round"})
 		}
 		d.tmpl = genTemplate(r, d.params, 0, map[string]int{})
 		defs = append(defs, d)
